@@ -31,7 +31,7 @@ Theorem C08 : forall cfg ops s' le, cfg_ok cfg -> run (init_sys cfg) ops = Ok s'
 Proof. exact leases_safe. Qed.
 Print Assumptions C08.
 
-Theorem C08_invariant : forall s sp idss le, Inv s sp idss -> In le (leases (rcv s)) -> l_shm le = true ->
+Theorem C08_invariant : forall ext Eg s sp idss le, Inv ext Eg s sp idss -> In le (leases (rcv s)) -> l_shm le = true ->
   ~ In (l_off le) (frees (mem s)) /\ lease_bytes (mem s) le = l_bytes le
   /\ ~ In (l_off le) (offs (slices (snd s))) /\ ~ In (l_off le) (offs (oth s)) /\ ~ In (l_off le) (concat idss).
 Proof. exact Inv_leases_safe. Qed.
